@@ -1,15 +1,83 @@
 package gofakes3
 
 import (
+	"errors"
 	"fmt"
 	"io"
-	"io/ioutil"
 )
 
 type chunkedReader struct {
 	inner         io.Reader
 	chunkRemain   int
 	notFirstChunk bool
+	final         bool // the zero-length chunk that ends the stream has been read
+}
+
+// errMalformedChunk is returned for a body that is not a well-formed
+// aws-chunked stream.
+func errMalformedChunk(what string) error {
+	return ErrorMessage(ErrIncompleteBody, "malformed aws-chunked body: "+what)
+}
+
+// unexpectedEOF: the transport may only end after the final chunk.
+func unexpectedEOF(err error) error {
+	if err == io.EOF {
+		return io.ErrUnexpectedEOF
+	}
+	return err
+}
+
+// expect consumes exactly the bytes of want.
+func (r *chunkedReader) expect(want string) error {
+	buf := make([]byte, len(want))
+	if _, err := io.ReadFull(r.inner, buf); err != nil {
+		return unexpectedEOF(err)
+	}
+	if string(buf) != want {
+		return errMalformedChunk(fmt.Sprintf("expected %q", want))
+	}
+	return nil
+}
+
+// readChunkHeader reads "<hex size>;chunk-signature=<64 hex digits>\r\n".
+func (r *chunkedReader) readChunkHeader() (size int, err error) {
+	var b [1]byte
+	digits := 0
+	for {
+		if _, err := io.ReadFull(r.inner, b[:]); err != nil {
+			return 0, unexpectedEOF(err)
+		}
+		c := b[0]
+		var v byte
+		switch {
+		case c == ';' && digits > 0:
+			if err := r.expect("chunk-signature="); err != nil {
+				return 0, err
+			}
+			var sig [64]byte
+			if _, err := io.ReadFull(r.inner, sig[:]); err != nil {
+				return 0, unexpectedEOF(err)
+			}
+			for _, h := range sig {
+				if !('0' <= h && h <= '9' || 'a' <= h && h <= 'f' || 'A' <= h && h <= 'F') {
+					return 0, errMalformedChunk("chunk signature is not 64 hex digits")
+				}
+			}
+			return size, r.expect("\r\n")
+		case '0' <= c && c <= '9':
+			v = c - '0'
+		case 'a' <= c && c <= 'f':
+			v = c - 'a' + 10
+		case 'A' <= c && c <= 'F':
+			v = c - 'A' + 10
+		default:
+			return 0, errors.New("expected integer") // (the error fmt.Fscanf used to give here)
+		}
+		if digits++; digits > 7 {
+			return 0, errMalformedChunk("chunk size too large")
+		}
+		size = size<<4 | int(v)
+	}
 }
 
 func newChunkedReader(inner io.Reader) *chunkedReader {
@@ -33,7 +101,7 @@ func (r *chunkedReader) Read(p []byte) (n int, err error) {
 			sizeToRead -= innerN
 			n += innerN
 			if err != nil {
-				return n, err
+				return n, unexpectedEOF(err)
 			}
 		} else if r.chunkRemain > 0 {
 			// read until this chunk ends
@@ -42,30 +110,33 @@ func (r *chunkedReader) Read(p []byte) (n int, err error) {
 			n += innerN
 			sizeToRead -= innerN
 			if err != nil {
-				return n, err
+				return n, unexpectedEOF(err)
 			}
 		} else {
 			if !r.notFirstChunk {
 				// Is first chunk.
 				r.notFirstChunk = true
 			} else {
-				// skip last chunk's b"\r\n"
-				_, err = io.CopyN(ioutil.Discard, r.inner, 2)
-				if err != nil {
+				// the data of every chunk (also of the empty final one) is followed by "\r\n"
+				if err := r.expect("\r\n"); err != nil {
 					return n, err
 				}
 			}
+			if r.final {
+				// the zero-length chunk ends the stream: nothing may follow it
+				var one [1]byte
+				if m, _ := r.inner.Read(one[:]); m > 0 {
+					return n, errMalformedChunk("data after the final chunk")
+				}
+				return n, io.EOF
+			}
 			// read next chunk header
-			chunkSize := 0
-			_, err = fmt.Fscanf(r.inner, "%x;", &chunkSize)
+			chunkSize, err := r.readChunkHeader()
 			if err != nil {
 				return n, err
 			}
 			r.chunkRemain = chunkSize
-			_, err = io.CopyN(ioutil.Discard, r.inner, 16+64+2) // "chunk-signature=" + sizeOfHash + "\r\n"
-			if err != nil {
-				return n, err
-			}
+			r.final = chunkSize == 0
 		}
 	}
 	return n, nil
